@@ -104,7 +104,13 @@ type gatedConn struct {
 	// the scheduler can report them as events (writer-level tier)
 	recRejected bool
 	rejected    [][]byte
+	// failArm: the next failArm calls of SetWriteDeadline that arm a deadline fail (a fault point BEFORE byte 0 of a
+	// Write / of a coalesced flush); armFails counts the failures that happened
+	failArm  int
+	armFails int
 }
+
+var errArm = errors.New("verif: injected SetWriteDeadline error")
 
 // takeRejected returns (and forgets) the Writes the closed socket has refused since the last call.
 func (g *gatedConn) takeRejected() [][]byte {
@@ -117,6 +123,12 @@ func (g *gatedConn) takeRejected() [][]byte {
 
 func (g *gatedConn) SetWriteDeadline(t time.Time) error {
 	g.mu.Lock()
+	if !t.IsZero() && g.failArm > 0 {
+		g.failArm--
+		g.armFails++
+		g.mu.Unlock()
+		return errArm
+	}
 	g.armed = !t.IsZero()
 	if g.armed {
 		g.armSeq++
